@@ -121,6 +121,9 @@ func execute(h *run.H, tr *hist.Trace, draw func(w *hist.World, i int) (hist.Ste
 		}
 	}
 	feats["blocks"] = int(w.C.Height)
+	if len(tr.Params.PreMature) > 1 {
+		feats["genesis-with-pending-maturities"]++
+	}
 	return nil, feats
 }
 
@@ -154,6 +157,17 @@ func noteFeatures(f map[string]int, b *sim.Block, res *sim.BlockRes, st hist.Ste
 			f["undelegation-matured"]++
 		}
 	}
+	verdicts := 0
+	for _, ev := range res.End.Events {
+		if ev.Type == "allegation_tracker" {
+			verdicts++
+		}
+	}
+	if verdicts == 1 {
+		f["verdict"]++
+	} else if verdicts >= 2 {
+		f["two-verdicts-one-block"]++
+	}
 	nz, z := 0, 0
 	for _, u := range res.Updates {
 		if u.Power == 0 {
@@ -173,7 +187,7 @@ func noteFeatures(f map[string]int, b *sim.Block, res *sim.BlockRes, st hist.Ste
 func classify(f map[string]int) (bool, string, []string) {
 	var classes []string
 	multi := 0
-	for _, k := range []string{"block-with-2+-successful-txs", "rewards-to-2+-validators", "updates-for-2+-validators", "validator-removed", "undelegation-matured"} {
+	for _, k := range []string{"two-verdicts-one-block", "verdict", "genesis-with-pending-maturities", "block-with-2+-successful-txs", "rewards-to-2+-validators", "updates-for-2+-validators", "validator-removed", "undelegation-matured"} {
 		if f[k] > 0 {
 			classes = append(classes, k)
 			multi++
@@ -198,6 +212,13 @@ func TestC01(t *testing.T) {
 	rapid.Check(t, func(rt *rapid.T) {
 		caseN++
 		p := hist.GenParams(rt, fmt.Sprint(h.Seed))
+		// a genesis produced by a state dump carries pending unstake maturities (several heights)
+		if rapid.IntRange(0, 3).Draw(rt, "premature") == 0 {
+			n := rapid.IntRange(2, 5).Draw(rt, "npremature")
+			for i := 0; i < n; i++ {
+				p.PreMature = append(p.PreMature, sim.PreMat{Val: rapid.IntRange(0, 6).Draw(rt, "pmval"), Amount: int64(rapid.IntRange(1, 50).Draw(rt, "pmamt")), Height: int64(rapid.IntRange(2, 12).Draw(rt, "pmh"))})
+			}
+		}
 		prof := hist.ProfileNames[rapid.IntRange(0, len(hist.ProfileNames)-1).Draw(rt, "profile")]
 		tr := &hist.Trace{Params: p, Roles: hist.Roles(p, 3), Profile: prof}
 		nb := rapid.IntRange(4, maxBlocks).Draw(rt, "nblocks")
